@@ -4,84 +4,22 @@ From GixV.Base Require Import Bytes BytesFacts Outcome.
 From GixV.C53 Require Import Model Spec ProofsVec ProofsMap ProofsTop ProofsParse ProofsFile ProofsFgets.
 Import ListNotations.
 
-Lemma all_plain_utf8 : forall s, all_plain s = true -> is_utf8 s = true.
+(* the lookup keys of the parsed entries are valid UTF-8 (classes non-utf8-key-in-mailmap) *)
+Definition key_utf8 (en : entry) : bool :=
+  is_utf8 (old_email en) && match old_name en with Some n => is_utf8 n | None => true end.
+Definition keys_utf8 (text : bytes) : bool := forallb key_utf8 (parse_ignore_errors text).
+
+Lemma keys_utf8_en_ok text : keys_utf8 text = true -> Forall en_ok (parse_ignore_errors text).
 Proof.
-  induction s as [|a r IH]; [reflexivity|]. cbn [all_plain forallb]. intros H.
-  apply andb_prop in H. destruct H as [Ha Hr]. cbn [is_utf8].
-  assert (N.ltb (b2N a) 128 = true) as ->.
-  { unfold plain in Ha. destruct (N.ltb (b2N a) 128); [reflexivity|discriminate]. }
-  apply IH, Hr.
-Qed.
-
-Lemma nonempty_opt_some y x : nonempty_opt y = Some x -> x = y.
-Proof. destruct y; cbn [nonempty_opt is_empty]; [discriminate|]. intros H. injection H as <-. reflexivity. Qed.
-
-Lemma pne_plain s n e rest : all_plain s = true -> pne_shape s = Ok (n, e, rest) ->
-  (forall x, n = Some x -> all_plain x = true) /\ (forall x, e = Some x -> all_plain x = true)
-  /\ all_plain rest = true.
-Proof.
-  intros Hp. unfold pne_shape. destruct (g_find 60 s) as [sb|].
-  - cbv zeta. destruct (g_find 62 (skipn (S sb) s)) as [cb|]; [|discriminate].
-    destruct (is_empty (g_trim (firstn cb (skipn (S sb) s)))); [discriminate|].
-    intros H. injection H as <- <- <-. split; [|split].
-    + intros x Hx. apply nonempty_opt_some in Hx. subst x. exact (all_plain_g_trim _ (all_plain_firstn sb s Hp)).
-    + intros x Hx. injection Hx as <-. exact (all_plain_g_trim _ (all_plain_firstn cb _ (all_plain_skipn (S sb) s Hp))).
-    + exact (all_plain_skipn (S cb) _ (all_plain_skipn (S sb) s Hp)).
-  - intros H. injection H as <- <- <-. split; [|split]; [discriminate|discriminate|exact Hp].
-Qed.
-
-Lemma parse_line_keys t en : all_plain t = true -> parse_line t = Ok en ->
-  all_plain (old_email en) = true /\ (forall n, old_name en = Some n -> all_plain n = true).
-Proof.
-  intros Hp. unfold parse_line. rewrite (pne_eq t Hp).
-  destruct (pne_shape t) as [[[n1 e1] rest]|e| |] eqn:E1; try discriminate.
-  destruct (pne_plain t n1 e1 rest Hp E1) as (A1 & A2 & A3).
-  rewrite (pne_eq rest A3).
-  destruct (pne_shape rest) as [[[n2 e2] rest2]|e| |] eqn:E2; try discriminate.
-  destruct (pne_plain rest n2 e2 rest2 A3 E2) as (B1 & B2 & _).
-  destruct (negb (is_empty (trim rest2))); try discriminate.
-  destruct n1, e1, n2, e2; intros H; try discriminate; inversion H; subst; cbn [old_email old_name];
-    (split; [auto|intros n Hn; try discriminate; injection Hn as <-; auto]).
-Qed.
-
-Lemma parsed_keys_ok : forall cs, (forall c, In c cs -> all_plain c = true) ->
-  Forall en_ok (oks (filter_some (map parse_raw_line (map trim_last_terminator cs)))).
-Proof.
-  induction cs as [|c cs IH]; intros H; [constructor|].
-  assert (IH' := IH (fun c0 Hc => H c0 (or_intror Hc))).
-  cbn [map filter_some]. destruct (parse_raw_line (trim_last_terminator c)) as [[en|e| |]|] eqn:E;
-    cbn [filter_some oks]; try exact IH'.
-  constructor; [|exact IH'].
-  destruct (tlt_split c) as (w & _ & Ec).
-  assert (Hpl : all_plain (trim_last_terminator c) = true).
-  { pose proof (H c (or_introl eq_refl)) as Hp. rewrite Ec, all_plain_app in Hp. apply andb_prop in Hp. apply Hp. }
-  unfold parse_raw_line in E. destruct (trim_last_terminator c) as [|b r]; [discriminate|].
-  destruct (isb b 35); [discriminate|].
-  destruct (is_empty (trim (b :: r))); [discriminate|]. injection E as E.
-  rewrite (trim_plain _ Hpl) in E.
-  destruct (parse_line_keys _ en (all_plain_g_trim _ Hpl) E) as [K1 K2].
-  split; [eapply parse_line_wf; exact E|]. split; [apply all_plain_utf8, K1|].
-  destruct (old_name en) as [n|]; [apply all_plain_utf8, K2; reflexivity|exact I].
-Qed.
-
-Lemma parse_ignore_errors_en_ok text :
-  (forall c, In c (lines_wt text) -> all_plain c = true) -> Forall en_ok (parse_ignore_errors text).
-Proof. intros H. exact (parsed_keys_ok (lines_wt text) H). Qed.
-
-(* the text-level theorem with the UTF-8 premise on the entries discharged *)
-Lemma resolve_text' text name email :
-  fgets_chunks text = lines_wt text ->
-  (forall c, In c (lines_wt text) -> line_ok c) ->
-  is_utf8 name = true -> is_utf8 email = true ->
-  email_case_exact (parse_ignore_errors text) email ->
-  exists s, from_bytes text = Ok s /\ resolve s name email = g_check_mailmap text name email.
-Proof.
-  intros Hf Hl Un Ue Hx. apply resolve_text; try assumption.
-  apply parse_ignore_errors_en_ok. intros c Hc. apply (proj1 (Hl c Hc)).
+  unfold keys_utf8. rewrite forallb_forall. intros H.
+  pose proof (parse_ignore_errors_wf text) as W. rewrite Forall_forall in *.
+  intros en Hen. specialize (H en Hen). specialize (W en Hen).
+  unfold key_utf8 in H. apply andb_prop in H. destruct H as [H1 H2].
+  split; [exact W|]. split; [exact H1|]. destruct (old_name en); [exact H2|exact I].
 Qed.
 
 (* the parser-level known classes as one boolean on the text: every LF-terminated piece is at most
-   1022 bytes (line-over-1022-bytes), plain (nul-byte, unicode-whitespace) and its trimmed line has
+   1022 bytes (line-over-1022-bytes), plain (nul-byte, unicode-whitespace: no NUL, VT, FF, C2, E1, E2, E3) and its trimmed line has
    none of trailing-text / email-edge-whitespace / empty-second-email *)
 Definition text_clean (text : bytes) : bool :=
   forallb (fun c => Nat.leb (length c) 1022 && all_plain c
@@ -97,13 +35,13 @@ Proof.
 Qed.
 
 Lemma resolve_text_clean text name email :
-  text_clean text = true ->
+  text_clean text = true -> keys_utf8 text = true ->
   is_utf8 name = true -> is_utf8 email = true ->
   email_case_exact (parse_ignore_errors text) email ->
   exists s, from_bytes text = Ok s /\ resolve s name email = g_check_mailmap text name email.
 Proof.
-  intros Hc Un Ue Hx. pose proof (text_clean_spec text Hc) as H.
-  apply resolve_text'; try assumption.
+  intros Hc Hku Un Ue Hx. pose proof (text_clean_spec text Hc) as H.
+  apply resolve_text; try assumption; [| |apply keys_utf8_en_ok, Hku].
   - apply fgets_chunks_lines, Forall_forall. intros c Hi. apply (H c Hi).
   - intros c Hi. apply (H c Hi).
 Qed.
